@@ -42,6 +42,7 @@ var (
 		nil, {hStarAtom}, {hStarAtom, hauth("Authorization")}, {hauth("Authorization"), hStarAtom}, {hauth("AUTHORIZATION")},
 		{hv("X-Listed-1"), hv("x-listed-2")}, {hv("X-Listed-1"), hStarAtom}, {hv("X-Listed-1"), hauth("Authorization"), hv("x-listed-2")},
 		{hv("Content-Type"), hv("x-listed-2"), hv("X-Listed-1")},
+		{hv("Accept-Language"), hv("X-Listed-1"), hv("content-language"), hv("Accept")},
 	}
 	prodMaxAge  = []int{0, -1, 600}
 	prodStatus  = []int{0, 200}
@@ -103,7 +104,7 @@ var (
 		{Scheme: "connector", Host: "localhost", Port: 3000},
 	}
 	c02Methods     = []string{"GET", "HEAD", "POST", "PUT", "put", "Put", "patch", "PATCH", "DELETE", "delete", "OPTIONS", "CHICKEN", "chicken", "get"}
-	c02HeaderNames = []string{"authorization", "content-type", "x-listed-1", "x-listed-2", "x-unlisted"}
+	c02HeaderNames = []string{"authorization", "content-type", "x-listed-1", "x-listed-2", "x-unlisted", "accept-language"}
 )
 
 type c02Case struct {
@@ -210,7 +211,7 @@ func c02RunCase(r *Run, l *Local, e *c02Env, debug bool, in *Intent, acrh []stri
 func TestVerif_C02(t *testing.T) {
 	r := newRun(t, "C02")
 	r.Rule("configuration product Credentialed x PNA{off,on,nocors} x 8 origin-list kinds x 10 method lists x 9 request-header lists x 3 max-ages x 2 statuses (invalid combinations dropped) " +
-		"x intents: origin candidates (allowed, wildcard-allowed, every near-miss class, unrelated) x 14 method spellings x all 32 subsets of 5 header names x credentials omit/include x PNA target no/yes x debug off/on x tolerated ACRH perturbations. " +
+		"x intents: origin candidates (allowed, wildcard-allowed, every near-miss class, unrelated) x 14 method spellings x all 64 subsets of 6 header names (incl. a CORS-safelisted request-header name, which browsers list when its value is not safelisted) x credentials omit/include x PNA target no/yes x debug off/on x tolerated ACRH perturbations. " +
 		"For refused origins a few representative intents only. evaluation = one browser run (<= 2 requests through the real middleware); non-trivial = run that required a preflight or ended in success, each (configuration, intent, debug, rendering) generated once")
 	r.Assume("S3 transcribes Fetch (CORS-preflight fetch, CORS check, method normalisation, extract header list values) and the PNA draft's preflight rule; S2 is the statement of C02; both are independent of the implementation")
 
@@ -233,9 +234,9 @@ func TestVerif_C02(t *testing.T) {
 
 	// header subsets
 	var subsets [][]string
-	for m := 0; m < 32; m++ {
+	for m := 0; m < 64; m++ {
 		var s []string
-		for b := 0; b < 5; b++ {
+		for b := 0; b < 6; b++ {
 			if m&(1<<b) != 0 {
 				s = append(s, c02HeaderNames[b])
 			}
@@ -243,7 +244,7 @@ func TestVerif_C02(t *testing.T) {
 		subsets = append(subsets, s)
 	}
 	// quick: a stratified slice of the cells of each configuration; thorough: all cells
-	stride := pick(r, 97, 1)
+	stride := pick(r, 193, 1)
 	pertPerCell := pick(r, 1, 3)
 	r.Parallel(len(prod), func(l *Local) {
 		c := prod[l.Batch]
@@ -259,7 +260,7 @@ func TestVerif_C02(t *testing.T) {
 			allowed := e.sem.originAllowed(o)
 			for mi, m := range c02Methods {
 				for si, hs := range subsets {
-					if !allowed && !(mi == si%len(c02Methods) && si%8 == 0) {
+					if !allowed && !(mi == si%len(c02Methods) && si%16 == 0) {
 						continue // refused origins: representatives only
 					}
 					for _, cm := range []bool{false, true} {
